@@ -1461,14 +1461,20 @@ func panicGuard(c *Ctx, f *ssa.Function, call *ssa.Call, e *ir.Expr, kind string
 		if len(e.Args) == 1 && e.Args[0].Op == "list" && len(e.Args[0].Args) == 1 {
 			amt = e.Args[0].Args[0]
 		}
+		canon := func(x *ir.Expr) *ir.Expr { return w.ExpandKeep(x, 6, ir.TypesVocabulary) }
+		var camt *ir.Expr
+		if amt != nil {
+			camt = canon(amt)
+		}
 		return amt != nil && w.Guarded(f, call, func(p ir.Pred) bool {
+			// compared alternative by alternative in canonical form (the coin may be a stream loaded before or after a settlement helper)
 			isAmt := func(x *ir.Expr) bool {
-				return x.Op == "field" && x.Name == "Amount" && x.Args[0].String() == amt.String()
+				return x.Op == "field" && x.Name == "Amount" && x.Args[0].String() == amt.String() || amountOfCoin(canon(x), camt)
 			}
 			return intCmpIs(p, ">", isAmt, isZeroInt) ||
 				p.Pol && calleeIs(p.E, "math.Int).IsPositive") && len(p.E.Args) == 1 && isAmt(p.E.Args[0]) ||
-				p.Pol && calleeIs(p.E, "types.Coin).IsPositive") && len(p.E.Args) == 1 && p.E.Args[0].String() == amt.String()
-		}, 0)
+				p.Pol && calleeIs(p.E, "types.Coin).IsPositive") && len(p.E.Args) == 1 && (p.E.Args[0].String() == amt.String() || sameCoin(canon(p.E.Args[0]), camt))
+		}, 1)
 	}
 	return false
 }
